@@ -139,6 +139,12 @@ AXIS_TABLE = [
     ("_extras.permute", "dims"), (T + "set_core", "k"),
 ]
 
+AXIS_SCENARIOS = {
+    T + "sum": ("sum:out-of-range", "sum:negative"), "_extras.dot": ("dot:axis-out-of-range",), "_extras.cat": ("cat:dim-out-of-range",),
+    T + "mprod": ("mprod:mode-out-of-range", "mprod:list-mode-out-of-range"), "_extras.permute": ("permute:dims-out-of-range", "permute:dims-repeated"),
+    T + "set_core": ("set_core:k-out-of-range",),
+}
+
 DEFASSIGN_EXCEPTIONS = {
     (T + "qtt_to_tens", "sig:=item | augMult"): "first-iteration initialisation idiom: `core` is None on loop entry and is reset to None "
                                    "whenever a core is emitted, so the assigning branch always runs before the reading one",
@@ -505,4 +511,12 @@ def check(model: Model, tier: str):
                 o.status = INFO
                 o.detail = "structural reading inconclusive (size compatibility of this function is decided by evaluation: E5-UNIFY / compat / E5-RAISE): " + o.detail
     obs += table
+    # Out-of-range positions are DECIDED by evaluating each function on a position outside 0..d-1 (must-raise scenarios); the classification
+    # of the parameter's uses (AXIS-RANGE) is the structural cross-reference
+    for o in obs:
+        if o.rule == "AXIS-RANGE":
+            names = AXIS_SCENARIOS.get(o.key.split(":AXIS-RANGE:")[0], ())
+            sem = [x for x in uni if x.rule in ("E5-RAISE", "E5-CHAIN") and x.construct in names]
+            if len({x.construct for x in sem}) == len(names) and names:
+                common.cross_reference([o], sem, "the function is evaluated on positions outside 0..d-1: " + ", ".join(names))
     return obs, {"functions": sorted(f.short for f in live)}
